@@ -53,10 +53,10 @@ def kAt (c : Ctx) (i : Nat) : Int := kOf (c.isChain.getD i false)
 /-- `k * CURV_FAC / v` -/
 def termZ (c : Ctx) (i v : Nat) : Int := Int.tdiv (kAt c i * curvFac) (v : Int)
 
-/-- `-CURV_FAC / 2 * size + Σ_i k_i * CURV_FAC / vs[i]` — what `new`, `root` and `children`
+/-- `-CURV_FAC / 2 * size + Σ_i k_i * CURV_FAC / vs[i]` (the 2 is `Tables.chamberDivisor`) — what `new`, `root` and `children`
     maintain incrementally -/
 def scaled (c : Ctx) (vs : List Nat) : Int :=
-  Int.tdiv (-curvFac) 2 * (c.dset.size : Int) + ((List.range c.count).map fun i => termZ c i (vs.getD i 0)).sum
+  Int.tdiv (-curvFac) Tables.chamberDivisor * (c.dset.size : Int) + ((List.range c.count).map fun i => termZ c i (vs.getD i 0)).sum
 
 theorem scaled_set (c : Ctx) (vs : List Nat) (n v : Nat) (hn : n < c.count) (hl : vs.length = c.count) :
     scaled c (vs.set n v) = scaled c vs - termZ c n (vs.getD n 0) + termZ c n v := by
